@@ -43,3 +43,68 @@ func spec_isOp(t Token) bool {
 
 // spec_isRegexOp: operators whose right operand is a regular expression.
 func spec_isRegexOp(t Token) bool { return t == EQREGEX || t == NEQREGEX }
+
+// ---------------------------------------------------------------- C08 durations
+
+// spec_unit: nanoseconds per unit, for the unit that starts with rune c0 and is
+// followed by rune c1 (0 when the text ends): ns, u or µ, ms, s, m, h, d, w.
+// 0 means "not a unit".
+func spec_unit(c0, c1 rune) int64 {
+	if c0 == 'n' {
+		if c1 == 's' {
+			return 1
+		}
+		return 0
+	}
+	if c0 == 'u' || c0 == 'µ' {
+		return 1000
+	}
+	if c0 == 'm' {
+		if c1 == 's' {
+			return 1000000
+		}
+		return 60000000000
+	}
+	if c0 == 's' {
+		return 1000000000
+	}
+	if c0 == 'h' {
+		return 3600000000000
+	}
+	if c0 == 'd' {
+		return 86400000000000
+	}
+	if c0 == 'w' {
+		return 604800000000000
+	}
+	return 0
+}
+
+// spec_unitlen: number of runes of the unit spelling (ns and ms are two).
+func spec_unitlen(c0, c1 rune) int {
+	if (c0 == 'n' || c0 == 'm') && c1 == 's' {
+		return 2
+	}
+	return 1
+}
+
+// spec_runeAt: a[j], or 0 past the end.
+func spec_runeAt(a []rune, j int) rune {
+	if j >= 0 && j < len(a) {
+		return a[j]
+	}
+	return 0
+}
+
+// spec_unitAt: the component whose unit starts at a[j] (directly after a digit,
+// at or after lo) ends at hi.
+func spec_unitAt(a []rune, lo, hi, j int) bool {
+	return j-1 >= lo && j < len(a) && isDigit(a[j-1]) && !isDigit(a[j]) &&
+		spec_unit(a[j], spec_runeAt(a, j+1)) > 0 &&
+		j+spec_unitlen(a[j], spec_runeAt(a, j+1)) == hi
+}
+
+// spec_unitVal: multiplier of the unit starting at a[j].
+func spec_unitVal(a []rune, j int) int64 {
+	return spec_unit(spec_runeAt(a, j), spec_runeAt(a, j+1))
+}
